@@ -119,6 +119,9 @@ class ExprMixin:
             yield st, self.module_attr(st, o.ty[7:], attr, cx)
             return
         attr = mangle(cx.cls, attr)
+        if o.ty == "cls" and attr == "__name__":
+            yield st, self.o.str_(w.fun("class_name", w.Cls, "str")(V.c(o.e)))
+            return
         if o.ty and o.ty.startswith("cls:"):
             yield from self.class_attr(st, o.ty[4:], attr, cx)
             return
@@ -133,13 +136,13 @@ class ExprMixin:
         if cls is None and cx.spec is not None:
             owners = self.reg.attr_owners(attr)
             if owners:
-                yield st, self.read_attr(st, o, self.reg.attrs[(owners[0], attr)], attr, guard=owners)
+                yield st, self.read_attr(st, o, self.reg.attrs[(owners[0], attr)], owners[0] + "." + attr, guard=owners)
                 return
         if cls is None:
             raise Unsupported("attribute %s on value of unknown class (%s)" % (attr, o.ty))
         decl = self.reg.attr_decl(self.src, cls, attr)
         if decl is not None:
-            yield st, self.read_attr(st, o, decl[1], attr)
+            yield st, self.read_attr(st, o, decl[1], decl[0] + "." + attr)
             return
         found = self.src.find_method(cls, attr)
         if found and found[1] == "property":
@@ -188,17 +191,47 @@ class ExprMixin:
             rr = w.rep(r, int(slot))
             st.assume(w.cls_of(rr) == w.CLS[kind])
             st.terms.append(("ref", rr))
-            return self.o.ref(rr, kind)
+            sv = self.o.ref(rr, kind)
+            owner, battr = attr.split(".", 1)
+            sv.aux = self.reg.content.get((owner, battr))
+            return sv
         val = st.rd(attr, r)
         self.assume_type(st, val, decl)
         hint = decl if not (decl.startswith("opt:") or "|" in decl or decl in ("any", "V")) else None
         return SV(val, hint)
 
+    def static_owner(self, o, attr):
+        c = o.ty[4:] if o.ty and o.ty.startswith("ref:") else None
+        if c is None:
+            return None
+        d = self.reg.attr_decl(self.src, c, attr)
+        return d[0] if d else None
+
+    def content_facts(self, st, c, k):
+        """typing / link facts of the entry under key k of a container with a declared content spec"""
+        aux = c.aux
+        if not aux:
+            return
+        o, V = self.o, self.w.V
+        r = o.r(c)
+        dom, mp = st.rd("$dom", r), st.rd("$map", r)
+        facts = []
+        if aux.get("k"):
+            facts.append(o.is_type(k, aux["k"]))
+        if aux.get("v") and aux["v"] not in ("any", "V"):
+            val = z3.Select(mp, k)
+            facts.append(o.is_type(val, aux["v"]))
+            facts.append(z3.Implies(V.is_ref(val), z3.And(V.r(val) > 0, V.r(val) <= st.alloc)))
+            if aux.get("link"):
+                facts.append(st.rd("BaseField." + aux["link"], V.r(val)) == k)
+        if facts:
+            st.assume(z3.Implies(z3.Select(dom, k), z3.And(facts)))
+
     def assume_type(self, st, val, decl):
         V = self.w.V
         if decl not in ("any", "V"):
             st.assume(self.o.is_type(val, decl))
-        st.assume(z3.Implies(V.is_ref(val), V.r(val) <= st.alloc))
+        st.assume(z3.Implies(V.is_ref(val), z3.And(V.r(val) > 0, V.r(val) <= st.alloc)))
 
     def class_attr(self, st, cls, attr, cx):
         cst = self.src.find_const(cls, attr)
@@ -220,7 +253,7 @@ class ExprMixin:
         if mod == "os.path" and attr == "sep":
             return self.o.str_("/")
         if mod == "hashlib" and attr in ("md5", "sha1", "sha224", "sha256", "sha384", "sha512"):
-            return SV(self.w.V.ref(z3.IntVal(-1000 - ["md5", "sha1", "sha224", "sha256", "sha384", "sha512"].index(attr))), "hashalg")
+            return SV(self.w.V.ref(z3.IntVal(1 + ["md5", "sha1", "sha224", "sha256", "sha384", "sha512"].index(attr))), "hashalg")
         return SV(None, "modattr:%s.%s" % (mod, attr))
 
     # ------------------------------------------------------------------ operators
@@ -345,6 +378,7 @@ class ExprMixin:
             k = o.refcls(st, c, ("dict", "set", "frozenset", "list", "tuple"))
             r = o.r(c)
             if k in ("dict", "set", "frozenset"):
+                self.content_facts(st, c, x.e)
                 return o.dict_has(st, r, x.e)
             if k in ("list", "tuple"):
                 n = st.rd("$len", r)
@@ -501,6 +535,7 @@ class ExprMixin:
             r = o.r(c)
             if kind == "dict":
                 has = o.dict_has(st, r, k.e)
+                self.content_facts(st, c, k.e)
                 if cx.spec is not None:
                     yield st, SV(o.dict_get(st, r, k.e))
                     return
@@ -508,7 +543,7 @@ class ExprMixin:
                 a.assume(has)
                 if o.feasible(a):
                     v = SV(o.dict_get(a, r, k.e))
-                    a.assume(z3.Implies(self.w.V.is_ref(v.e), self.w.V.r(v.e) <= a.alloc))
+                    a.assume(z3.Implies(self.w.V.is_ref(v.e), z3.And(self.w.V.r(v.e) > 0, self.w.V.r(v.e) <= a.alloc)))
                     yield a, v
                 b = st.clone()
                 b.assume(z3.Not(has))
